@@ -173,6 +173,9 @@ class ExprMixin:
                 ('.'.join((d + '.' + attr).split('.')[-2:]) in self.w.bases) else SExt(d + '.' + attr)
         if isinstance(sv, SExt):
             full = sv.dotted + '.' + attr
+            for k_, v_ in self.stubs.consts.items():
+                if full == k_ or full.endswith('.' + k_):
+                    return v_
             last2 = '.'.join(full.split('.')[-2:])
             if last2 in self.w.bases:
                 return SClass(last2)
@@ -408,6 +411,10 @@ class ExprMixin:
         raise Unsupported('comparison op')
 
     def member_seq(self, seq, a):
+        n = z3.simplify(z3.Length(seq))
+        if z3.is_int_value(n) and n.as_long() <= 8:
+            # a list of statically known length: no quantifier needed
+            return z3.Or([py_eq(self.nth(seq, z3.IntVal(i)), a) for i in range(n.as_long())] or [z3.BoolVal(False)])
         j = self.fresh('mj', Int)
         return z3.Exists([j], z3.And(j >= 0, j < z3.Length(seq), py_eq(seq[j], a)))
 
